@@ -320,7 +320,7 @@ func execute(e *Engine, prop, tier string, seed uint64, t *Tape, opt map[string]
 			if !strings.Contains(blk, " at 0x") {
 				continue
 			}
-			sig := "C15|data-race|" + raceSites(blk)
+			sig := r.Prop + "|data-race|" + raceSites(blk)
 			if !seen[sig] {
 				seen[sig] = true
 				res.RaceSigs = append(res.RaceSigs, sig)
@@ -331,7 +331,7 @@ func execute(e *Engine, prop, tier string, seed uint64, t *Tape, opt map[string]
 		}
 		sort.Strings(res.RaceSigs)
 		if len(res.RaceSigs) > 0 {
-			res.Viol = &Violation{Prop: "C15", Class: "data-race", Sig: res.RaceSigs[0], Msg: "the race detector reported (first of " + fmt.Sprint(len(res.RaceSigs)) + " distinct reports):\nWARNING: DATA RACE" + truncateStr(first, 2500), Step: r.Step}
+			res.Viol = &Violation{Prop: r.Prop, Class: "data-race", Sig: res.RaceSigs[0], Msg: "the race detector reported (first of " + fmt.Sprint(len(res.RaceSigs)) + " distinct reports):\nWARNING: DATA RACE" + truncateStr(first, 2500), Step: r.Step}
 			r.Logf("VIOLATION data-race")
 		}
 	}
